@@ -58,6 +58,20 @@ func (l *evlog) lastReplyCode() string {
 	return string(b[:3])
 }
 
+// peekWritten returns everything written so far (events and pending octets), for waiting on reply counts.
+func (l *evlog) peekWritten() string {
+	l.mu.Lock()
+	defer l.mu.Unlock()
+	var b strings.Builder
+	for _, e := range l.evs {
+		if strings.HasPrefix(e, "W:") {
+			b.Write(unhx(e[2:]))
+		}
+	}
+	b.Write(l.wbuf)
+	return b.String()
+}
+
 func (l *evlog) String() string {
 	l.mu.Lock()
 	defer l.mu.Unlock()
@@ -427,6 +441,12 @@ func (s *session) data(r io.Reader, status smtp.StatusCollector, sync bool) (err
 			break
 		}
 	}
+	gatesMu.Lock()
+	useGate := gating
+	gatesMu.Unlock()
+	if useGate {
+		<-gateFor(k).ch
+	}
 	if status != nil {
 		for _, st := range dec.statuses {
 			status.SetStatus(st[0], parseRes(st[1]).err())
@@ -664,7 +684,7 @@ func probeConv(f []string) string {
 	be.mu.Lock()
 	d := append([]string(nil), be.drecs...)
 	be.mu.Unlock()
-	sort.Strings(d)
+	sortStrings(d)
 	conn.mu.Lock()
 	wac := conn.wac
 	conn.mu.Unlock()
@@ -672,3 +692,5 @@ func probeConv(f []string) string {
 }
 
 func init() { probes["conv"] = probeConv }
+
+func sortStrings(d []string) { sort.Strings(d) }
